@@ -10,7 +10,7 @@
 // take: run-time signed index list of 1..4 entries, run-time axis / axis=None
 #define TAKE(D) KERNEL int K(k_take##D)(ARGS_IN, const int* ind, size_t ni, int axis, ARGS_OUT){ MK(D); return OBSV(view::take(a, mk_sv<int,4>(ind,ni), axis)); } \
   KERNEL int K(k_take_flat##D)(ARGS_IN, const int* ind, size_t ni, ARGS_OUT){ MK(D); return OBSV(view::take(a, mk_sv<int,4>(ind,ni), nm::None)); }
-FOR_DIMS(TAKE)
+FOR_DIMS4(TAKE)
 // binary joins of two arrays of the same dimension
 #define ARGS_IN2 const size_t* shape, const unsigned* data, const size_t* shape2, const unsigned* data2
 #define MK2(D) src_t<D> a, b; if (!mk##D(a,shape,data) || !mk##D(b,shape2,data2)) return -1
@@ -23,4 +23,4 @@ FOR_DIMS(TAKE)
   KERNEL int K(k_vstack##D)(ARGS_IN2, ARGS_OUT){ MK2(D); return OBSV(view::vstack(a, b)); } \
   KERNEL int K(k_dstack##D)(ARGS_IN2, ARGS_OUT){ MK2(D); return OBSV(view::dstack(a, b)); } \
   KERNEL int K(k_column_stack##D)(ARGS_IN2, ARGS_OUT){ MK2(D); return OBSV(view::column_stack(a, b)); }
-FOR_DIMS(JOIN)
+FOR_DIMS4(JOIN)
